@@ -299,6 +299,15 @@ func c14Run(c *Ctx) {
 			}
 		}
 	}
+	// access chains: an inner link is read before the subscripts to its right are evaluated
+	for _, src := range []string{
+		pre + Lines(Var("grid", "[[1, 2, 3], [4, 5, 6]]"), Print("grid[0][(grid[0] = [70, 80, 90])[0] - 70]"), Print("grid"), Var("scr", "[[1, 1], [2, 2]]"), Fun("swap", "", " "+Var("t", "scr[0]")+" scr[0] = scr[1]; scr[1] = t; "+Ret("0")+" "), Print("scr[0][swap()]"), Print("scr[0][0]")),
+		pre + Lines(Var("q", "{head: [10, 20], n: 0}"), Fun("take", "", " q.head = [30, 40]; q.n = q.n + 1; "+Ret("1")+" "), Print("q.head[take()]"), Print("q.head[0]"), Var("o", "{a: {b: [5, 6]}}"), Fun("repl", "", ` o.a = {b: [7, 8]}; `+Ret("0")+" "), Print("o.a.b[repl()]"), Print(`o.a.b[p("I", 1)]`), Print(`[[1, 2], [3, 4]][p("A", 1)][p("B", 0)]`)),
+	} {
+		if c.Mine() {
+			c14Judge(c, &Case{Gen: "handwritten", Src: src})
+		}
+	}
 	// declaration lists: every initialiser sees the variables declared before it in the same list
 	for _, src := range []string{
 		pre + Lines(K["var"]+` a = p("A", 2), b = a * p("B", 10), c3 = a + b;`, Print("[a, b, c3]")),
